@@ -8,6 +8,7 @@ import Gts.Spec.Guard
 import Gts.Spec.LocCanon
 import Gts.Spec.Marks
 import Gts.Spec.MarkGuard
+import Gts.Spec.CanonGuard
 namespace Gts
 
 def hasEmptyParts : Loc → Bool
@@ -105,6 +106,16 @@ def evalCore (op : String) (args : List Sexp) : Option String :=
   | "k2.join", ls => do pure (boolStr (Loc.joinAbs (← ls.mapM decLoc?)))
   | "k2.pushall", f :: ls => do
       pure (boolStr (Loc.pushAllAbs (← ls.mapM decLoc?) (← decBool? f)))
+  | "k3.shift", [l, i, n] => do
+      pure (boolStr ((← decLoc? l).shiftK3 (← decInt? i) (← decInt? n)))
+  | "k3.expand", [l, i, n] => do
+      pure (boolStr ((← decLoc? l).expandK3 (← decInt? i) (← decInt? n)))
+  | "k3.reverse", [l, n] => do pure (boolStr ((← decLoc? l).reverseK3 (← decInt? n)))
+  | "k3.normalize", [l, n] => do pure (boolStr ((← decLoc? l).normalizeK3 (← decInt? n)))
+  | "k3.join", ls => do pure (boolStr (Loc.joinK3 (← ls.mapM decLoc?)))
+  | "k3.adj", ls => do pure (boolStr (Loc.noAdjCompl (Loc.flatJList (← ls.mapM decLoc?))))
+  | "k3.le", [l, m] => do pure (boolStr (Loc.coordsLe (← decInt? m) (← decLoc? l)))
+  | "k3.revin", [l, n] => do pure (boolStr (Loc.revIn (← decInt? n) (← decLoc? l)))
   | _, _ => none
 
 end Gts
